@@ -132,9 +132,8 @@ pub fn run_op<S: MkSet>(su: &Setup, op: &Op) -> (String, String) {
     let ed = format!("{:?}", e);
     let mstart = ed.find("modifiers: ").map(|i| i + 11).unwrap_or(0);
     let mend = ed[mstart..].find('}').map(|i| mstart + i + 1).unwrap_or(ed.len());
-    let hstart = ed.find("handle_ctrl: ").map(|i| i + 13).unwrap_or(0);
-    let hend = ed[hstart..].find(',').map(|i| hstart + i).unwrap_or(ed.len());
-    let expected = format!("{} | {} | {} {}", expected_r, exp_state, &ed[mstart..mend], &ed[hstart..hend]);
+    // (the mode through the event decoder's own getter: what it reports need not be a field's rendering)
+    let expected = format!("{} | {} | {} {:?}", expected_r, exp_state, &ed[mstart..mend], e.get_ctrl_handling());
     (actual, expected)
 }
 
